@@ -156,7 +156,7 @@ def base_cases(ctx, seed, tier):
             elif live:
                 b = r.choice(live); live.remove(b); reqs.append(("f%d" if b[1] == "p" else "F%d") % b[0])
         out.append(("default", " ".join(reqs)))
-    for op in ("mkdirs", "canon", "cwd", "tmpdir", "mktmp", "mktmpbad 0", "mktmpbad 1", "mktmpbad 2", "copy 5000", "copyx 0", "copyx 511", "copyx 513", "copyx 70000",
+    for op in ("mkdirs", "canon", "cwd", "tmpdir", "mktmp", "mktmpbad 0", "mktmpbad 1", "mktmpbad 2", "copy 5000", "copyfull 0", "copyfull 300", "copyfull 5000", "copyx 0", "copyx 511", "copyx 513", "copyx 70000",
                "equals 0", "equals 4095", "equals 4096", "equals 9000", "equals 9000 8999", "equals 9000 0",
                "equals 600 512"):
         out.append(("fs", op))
@@ -230,6 +230,10 @@ def judge(comp, fault, args, line, nofault_line, oracle):
         probs.append("allocator protocol error: " + (re.search(r'first_error="([^"]*)"', line) or [None, "?"])[1])
     if spurious:
         probs.append("NO_MEM reported although no request was refused")
+    m = re.search(r" libc=(-?\d+)", line)
+    if m and int(m.group(1)) > 0:
+        probs.append("the C library's heap grew by %s bytes across the call: a block obtained behind the caller's "
+                     "allocator was not released" % m.group(1))
     if defalloc and fault != "@D" and comp != "default":
         probs.append("default allocator used although the caller supplied one (%d calls)" % defalloc)
     body = line.split(" ; ")[0]
@@ -292,6 +296,9 @@ def judge(comp, fault, args, line, nofault_line, oracle):
                 probs.append("a directory was left behind by a call that did not return it")
             elif op == "mktmpbad" and "res=NULL" not in body:
                 probs.append("a refused pattern did not yield NULL")
+            elif op == "copyfull" and body != "st=error":
+                if not (args.split()[1] == "0" and body == "st=SUCCESS"):     # nothing to write: nothing can fail
+                    probs.append("a copy onto a device that accepts no data did not report an error: " + body)
             elif op in ("copy", "copyx") and body != "st=SUCCESS equal=1":
                 probs.append("copy did not complete through the documented fall-back: " + body)
             elif op == "equals":
